@@ -102,7 +102,7 @@ func opFsrun(a []string) string {
 	switch a[6] {
 	case peer.FaultNone:
 		f.K = -1
-	case peer.FaultClose, peer.FaultGarbage, peer.FaultTrunc, peer.FaultOther, peer.FaultCloseUL, peer.FaultSilent, peer.FaultBigGarbage:
+	case peer.FaultClose, peer.FaultGarbage, peer.FaultTrunc, peer.FaultOther, peer.FaultCloseUL, peer.FaultSilent, peer.FaultBigGarbage, peer.FaultCount:
 		if k < 0 {
 			panic(badArg{})
 		}
@@ -194,6 +194,13 @@ func failstopDomain(e *emitter) {
 	if !e.thorough() {
 		// quick: 1 UE, every read index × {close, garbage, trunc, other}, every uplink index for closeul
 		sweep(1, [5]int{1, 1, 1, 1, 1}, e.seed, []string{peer.FaultClose, peer.FaultGarbage, peer.FaultTrunc, peer.FaultOther}, 1)
+		// a reply that is well-formed except that it announces one IE more than it holds, at every read
+		{
+			reads, _ := fsShape([5]int{1, 1, 1, 1, 1})
+			for k := 0; k < reads; k++ {
+				add(1, [5]int{1, 1, 1, 1, 1}, peer.FaultCount, k, e.seed)
+			}
+		}
 		// counts that differ from each other (clamps), a configuration from another seed, the shipped configuration
 		add(1, [5]int{1, 0, 1, 1, 1}, peer.FaultNone, 0, e.seed+1)
 		add(2, [5]int{2, 1, 2, 0, 3}, peer.FaultGarbage, 5, 0)
